@@ -110,7 +110,12 @@ var generators = []generator{
 	{"findmissing", []string{"R10a", "R10b", "R10c", "R10d", "R10g"}, func(c *Ctx, _ map[string]bool) { findMissingRules(c) }},
 	{"keyspaces", []string{"R15b", "R15c", "R15d", "R15e"}, func(c *Ctx, _ map[string]bool) { keyspaceRules(c) }},
 	{"write-protocol", []string{"R16a", "R16b", "R16c", "R16d"}, func(c *Ctx, _ map[string]bool) { writeProtocolRules(c) }},
-	{"size-limits", []string{"R18b", "R18c", "R18d"}, func(c *Ctx, _ map[string]bool) { sizeLimitRules(c) }},
+	{"size-limits", []string{"R18b", "R18c", "R18d"}, func(c *Ctx, want map[string]bool) {
+		sizeLimitRules(c)
+		if want["R18d"] {
+			proxyCallGuards(c)
+		}
+	}},
 	{"status-mapping", []string{"R17d"}, func(c *Ctx, _ map[string]bool) { statusMapping(c) }},
 	{"file-handles", []string{"R14k", "R04h"}, func(c *Ctx, _ map[string]bool) { fileHandleRules(c) }},
 	{"nilled-elements", []string{"R14l"}, func(c *Ctx, _ map[string]bool) { nilledElements(c) }},
@@ -163,8 +168,8 @@ func init() {
 	prop("C05", []string{"R05a", "R05b", "R05d", "R05e", "R03d", "R03c"},
 		structural+"Decided: (R05a) every index hit moves the element to the front before it is returned and Add pushes to the front, the map is touched by SizedLRU methods only; (R05b) victims come from the back of the list; (R03d) the eviction loop guard is the exact negation of the fit condition for the incoming delta (no eviction without pressure, minimal eviction); (R05d) an item that cannot fit is rejected before any eviction; (R05e) Put reserves the logical size and commit adds size = logical size, sizeOnDisk = bytes written; (R03c) the accounted size every eviction decision is taken from changes by exactly the entry that enters or leaves, so no phantom pressure builds up.",
 		"Not decided: the LRU order as a property of histories (the rules fix the per-operation list discipline from which it follows by induction); 'present immediately afterwards' under concurrency.")
-	prop("C06", []string{"R06a", "R06b", "R06c", "R06d", "R06e", "R06f", "R06g", "R10c"},
-		structural+"Decided: (R06a) every Digest-typed field reachable from ActionResult through OutputFile, OutputDirectory -> Tree -> Directory -> FileNode (enumerated from the generated protobuf types) flows into the presence check or is fetched; (R06b) the hit return is dominated by that check returning nil and a missing blob maps to a miss; (R06c) a nil result maps to NotFound / 404 with no 200 body before; (R06d) in the backend worker every answer that does not confirm the blob (absent, or another size) raises the fail-fast miss signal; (R06e) with dependency checking on, AC content reaches clients only through GetValidatedActionResult.",
+	prop("C06", []string{"R06a", "R06b", "R06c", "R06d", "R06e", "R06f", "R06g", "R10c", "R10a"},
+		structural+"Decided: (R06a) every Digest-typed field reachable from ActionResult through OutputFile, OutputDirectory -> Tree -> Directory -> FileNode (enumerated from the generated protobuf types) flows into the presence check or is fetched; (R06b) the hit return is dominated by that check returning nil and a missing blob maps to a miss; (R06c) a nil result maps to NotFound / 404 with no 200 body before; (R06d) in the backend worker every answer that does not confirm the blob (absent, or another size) raises the fail-fast miss signal; (R06e) with dependency checking on, AC content reaches clients only through GetValidatedActionResult; (R10a) the presence check the hit rests on counts a digest as present only on a sized hit in the index, a positive sized backend answer, or the empty blob (hash and size both).",
 		"Not decided: 'at that moment' (atomicity of the check with respect to concurrent eviction), the backend's truthfulness.")
 	prop("C07", []string{"R07a", "R07b", "R07e", "R07f", "R07g", "R03e", "R01a", "R12e", "R04f"},
 		structural+"Decided: (R07a) lockset: every access to the LRU index is made with c.mu held, Lock/Unlock balanced on every path, no double lock; (R07b) no blocking operation (file system, backend, semaphore, channel send, re-locking callee) while c.mu is held - the static deadlock argument; (R07e/R07f) closures run by several goroutines write shared variables only through atomics / disjoint slice elements that are awaited; (R03e) stale handles are re-validated; (R01a/R12e) an entry becomes visible in the index only after its file is complete, verified, synced and closed (whole values); (R07g) cache files are never modified once created - new content goes to a new O_EXCL file, old files are only unlinked - which is what keeps a streaming read unaffected by overwrite and eviction.",
@@ -175,8 +180,8 @@ func init() {
 	prop("C09", []string{"R09b", "R09c", "R09e", "R09f", "R04e", "R15a", "R05d", "R17c"},
 		structural+"Decided: (R04e/R15a) every name the writer can produce is accepted by the loader's grammar with the capture groups landing on the fields scanDir assigns, and the kind/prefix tables invert; (R09c) migration of the legacy layouts produces loadable names in the right directory with .v1 exactly for CAS; (R09b) scanned files are ordered by ascending access time and inserted oldest first; (R09e) only lost+found and .DS_Store are tolerated; (R09f) start-up returns only once the eviction backlog drained, and (R17c) the backlog counter it waits on is increased and decreased by the same field of the same entry (otherwise the wait never ends or ends early); (R05d) the loader's Add rejects an entry only when its on-disk size exceeds max_size (everything that fits is kept).",
 		"Not decided: behaviour on every possible directory content (that quantifies over file-system states), content preservation of migrated files, atime semantics of the platform.")
-	prop("C10", []string{"R10a", "R10b", "R10c", "R10d", "R10g", "R07f", "R02b"},
-		structural+"Decided: (R10a) a digest is marked found only on a sized local hit, the empty-digest test or a positive backend answer; (R10b) oversize digests are never asked of the backend; (R10c) the batching loop consumes the whole list with consistent bounds; (R10d) compaction is a single forward, order-preserving copy of the non-nil elements; (R10g) the response is the filtered request slice, every digest validated first; (R07f) each worker writes its own slice element and all are awaited before the result is read; (R02b) the empty blob is never missing.",
+	prop("C10", []string{"R10a", "R10b", "R10c", "R10d", "R10g", "R07f", "R02b", "R18d"},
+		structural+"Decided: (R10a) a digest is marked found only on a sized local hit, the empty-digest test or a positive backend answer; (R10b) oversize digests are never asked of the backend; (R10c) the batching loop consumes the whole list with consistent bounds; (R10d) compaction is a single forward, order-preserving copy of the non-nil elements; (R10g) the response is the filtered request slice, every digest validated first; (R07f) each worker writes its own slice element and all are awaited before the result is read; (R02b) the empty blob is never missing; (R18d) every call of the backend's Contains / Get in cache/disk - whatever function makes it - is made for a requested size that was compared with max_proxy_blob_size on that path.",
 		"Not decided: 'present throughout the call' under concurrent eviction, backend truthfulness.")
 	prop("C11", []string{"R11a", "R11b", "R11c", "R11d", "R11e"},
 		structural+"Decided: (R11a) every Cache.Put that can carry an action-cache entry is dominated by validate.ActionResult(ar) == nil and stores the marshalling of that same message; (R11b) every return of AC content is dominated by validation of the unmarshalled stored bytes; (R11c) validate.ActionResult checks every Digest-typed field reachable from the message (enumerated from the generated types) and every path-typed field; (R11d) no error return is reachable after the AC Put succeeded; (R11e) between validation and marshalling only the worker metadata is filled in.",
